@@ -162,6 +162,20 @@ def ob_once(run, oid):
                 for a in vs:
                     for v in a[1][1]:
                         seen[v] = (fs, term, dbb)
+        # NotarFallback: duplicate only for the SAME block (several blocks of one slot can be notar-fallback-certified)
+        nf = seen.get("NotarFallback")
+        if nf is not None:
+            term = nf[1]
+            cl = [x for x in mir.walk(term) if isinstance(x, tuple) and x and x[0] == "closure"] if isinstance(term, tuple) else []
+            per_hash = False
+            for x in cl:
+                cb = prog.bodies.get(x[1])
+                if cb is not None and sum(1 for c2 in cb.calls() if c2.name.endswith("block_hash")) >= 2 and any(c2.name.rsplit("::", 1)[-1] in ("eq", "ne") for c2 in cb.calls()):
+                    per_hash = True
+            if not per_hash and isinstance(term, tuple):
+                per_hash = K.mentions_call(term, "is_notar_fallback") or (K.mentions_call(term, "contains") and K.mentions_call(term, "block_hash"))
+            o.check(per_hash, "Pool::add_cert|duplicate|NotarFallback|per-block", "a received notar-fallback certificate is a duplicate only if one for the same block hash is held", c.span,
+                    {"test": mir.show(term)[:160] if isinstance(term, tuple) else None})
         for v, f in want.items():
             got = seen.get(v)
             o.check(got is not None and f in got[0], "Pool::add_cert|duplicate|%s" % v, "Cert::%s is a duplicate iff certificates.%s already holds one" % (v, f), c.span,
@@ -348,3 +362,7 @@ def check(run):
     # the admission filters - their order in Pool::add_vote, the decision tables and the recording of every admitted vote
     from . import C04
     C04.check(run, prefix="O3.8")
+    # "every certificate a node creates and broadcasts is one every other node accepts": the certificate has to survive the wire
+    # (hand-written signature / bitmask encoders and decoders agree; decoder bounds admit everything the encoder emits)
+    from . import C19
+    C19.check(run, prefix="O3.9")
